@@ -9,7 +9,7 @@ let kv line =
     | Some i -> Hashtbl.replace tbl (String.sub w 0 i) (String.sub w (i + 1) (String.length w - i - 1))
     | None -> ()) (words line);
   tbl
-let gi t k = try int_of_string (Hashtbl.find t k) with Not_found -> 0
+let gi t k = try int_of_string (Hashtbl.find t k) with Not_found -> (match k with "num" | "den" | "align" -> 1 | "bits" -> 8 | _ -> 0)
 let gz t k = z_of_int (gi t k)
 let gs t k = try Hashtbl.find t k with Not_found -> ""
 
